@@ -1,7 +1,7 @@
 (* Property C10: symmetry operators obey exact algebra and a lossless triplet notation.
    Statements only; proofs in Sym/OpProofs.v (unbounded in the operator entries) and
    Sym/SgProofs.v (triplet round trip, kernel-evaluated for every operation of every table row). *)
-From GV Require Import Sym.Op Sym.Triplet Sym.OpProofs Sym.SgCheck Sym.SgProofs.
+From GV Require Import Sym.Op Sym.Triplet Sym.OpProofs Sym.SgCheck Sym.SgProofs Sym.TripletRT.
 Local Open Scope Z_scope.
 
 Theorem C10_wrap_is_mod : forall t, wrap1 t = t mod 24.
@@ -62,9 +62,24 @@ Theorem C10_fraction_lowest_terms : forall w, 0 < w ->
 Proof. exact get_op_fraction_spec. Qed.
 Print Assumptions C10_fraction_lowest_terms.
 
+(* LOSSLESS TRIPLET NOTATION, unbounded: for every operator whose rotation rows are non-zero (in
+   particular every invertible one), with arbitrary integer entries in 1/24 units, printing in xyz
+   letters and parsing back yields the identical matrix and translation. Proved by induction over the
+   printed terms (strtol inverts decimal printing, fractions in lowest terms divide exactly). *)
+Theorem C10_row_roundtrip : forall x y z w nt, nt_ok nt -> (x, y, z) <> (0, 0, 0) ->
+  parse_triplet_part (make_triplet_part (x, y, z) w 120) nt = Ok ((x, y, z, w), 120).
+Proof. exact row_roundtrip_nt. Qed.
+Print Assumptions C10_row_roundtrip.
+
+Theorem C10_triplet_roundtrip_xyz : forall a, nt_ok (nota a) -> rows_nonzero a ->
+  exists s, triplet a 32 = Some s /\ parse_triplet s 32 = Ok (mkOp (rot a) (tran a) 120).
+Proof. exact triplet_roundtrip_xyz. Qed.
+Print Assumptions C10_triplet_roundtrip_xyz.
+
 (* print -> parse round trip for every operation of every tabulated group (finite: 564 rows),
    and exact inverses of all 51 basis operators (including the non-unimodular ones).
-   The general (unbounded) round trip is covered by the correspondence run only: _partial. *)
+   The hkl/abc/upper-case styles are proved only on the table operations (_partial); the general
+   statement for those styles is covered by the exact correspondence run and the o_rt oracle. *)
 Theorem C10_triplet_roundtrip_partial : forall r, In r sg_table ->
   exists g, operations r = HOk g /\ triplets_ok_b g = true.
 Proof.
